@@ -186,6 +186,46 @@ def avg_pb_unit(res):
     return res
 
 
+def avg_strings_unit(res):
+    """Pb: port collections written as STRINGS are sets of one-character ports, also when the model has a multi-character port
+    whose name equals the string (zen3: port pair '12' next to a port named '12'); list-shaped collections name whole ports."""
+    ex = Engine([REPO + "/" + HW])
+    ports = ["0", "1", "2", "12", "2D"]
+    c = [z3.Real(f"c{i}") for i in range(3)]
+    cases = [
+        ([[0, "12"]], {"1": [(0, 2)], "2": [(0, 2)]}),
+        ([[0, ["12"]]], {"12": [(0, 1)]}),
+        ([[0, "012"], [1, ["12", "2D"]]], {"0": [(0, 3)], "1": [(0, 3)], "2": [(0, 3)], "12": [(1, 2)], "2D": [(1, 2)]}),
+        ([[0, "2"], [1, "12"], [2, ["2", "12"]]], {"2": [(0, 1), (1, 2), (2, 2)], "1": [(1, 2)], "12": [(2, 2)]}),
+    ]
+    for as_dict in (False, True):
+        for uops_t, want in cases:
+            def run():
+                uops = [[SNum(c[i], False), (list(ps) if isinstance(ps, list) else ps)] for i, ps in uops_t]
+                mm = SObj("MachineModel", _data={"ports": list(ports)})
+                return ex.call_method("MachineModel", "average_port_pressure", mm, [{0: uops} if as_dict else uops])
+
+            paths = ex.explore(run, [x >= 0 for x in c])
+
+            def post(v, p, want=want):
+                if not isinstance(v, list) or len(v) != len(ports):
+                    return False
+                g = []
+                for j, pn in enumerate(ports):
+                    t = z3.RealVal(0)
+                    for (i, n) in want.get(pn, []):
+                        t = t + c[i] / n
+                    g.append(real_term(v[j]) == t)
+                return z3.And(g)
+
+            def conc(m, p, uops_t=uops_t):
+                fr = lambda t: str(Fraction(m.eval(t, model_completion=True).numerator_as_long(), m.eval(t, model_completion=True).denominator_as_long()))
+                return dict(replay="c01_avg", key="avg-uniform", args=dict(ports=ports, uops=[[fr(c[i]), ps] for i, ps in uops_t], as_dict=as_dict))
+
+            res.add_paths(paths, post, concretize=conc, kind=f"strings[{uops_t}]", label="Pb")
+    return res
+
+
 def lemma_unit(res):
     """L1-L4 over the ghost functions (inductions: base + step obligations)."""
     G = Ghost()
@@ -416,12 +456,23 @@ def tpsum_unit(res):
         pp = [[z3.Real(f"pp{i}_{j}") for j in range(NP)] for i in range(klen)]
         tp = [z3.Real(f"tp{i}") for i in range(klen)]
 
+        class AnyFlags:  # whatever flags the lines carry must not matter for the totals
+            def __init__(self, i):
+                self.i = i
+
+            def sym_contains(self, ex_, item):
+                return SBool(z3.Bool(f"flag_{self.i}_{item}"))
+
+            def sym_iter(self, ex_):
+                raise Unsupported("iteration over flags")
+
         def run():
             kernel = []
             for i in range(klen):
                 f = new_iform(ex, mnemonic="x")
                 f.fields["_port_pressure"] = [SNum(x, False) for x in pp[i]]
                 f.fields["_throughput"] = SNum(tp[i], False)
+                f.fields["_flags"] = AnyFlags(i)
                 kernel.append(f)
             return ex.call_method("ArchSemantics", "get_throughput_sum", None, [kernel])
 
@@ -460,6 +511,7 @@ def units(tier):
     return [
         Unit("C01/average_port_pressure", avg_unit, "P", [(HW, "MachineModel.average_port_pressure")]),
         Unit("C01/average_port_pressure/Pb-floor", avg_pb_unit, "Pb", [(HW, "MachineModel.average_port_pressure")]),
+        Unit("C01/average_port_pressure/string-port-sets", avg_strings_unit, "Pb", [(HW, "MachineModel.average_port_pressure")]),
         Unit("C01/lemmas/uniform-split-feasible", lemma_unit, "L", []),
         Unit("C01/_handle_instruction_found", handle_found_unit, "P", [(AS, "ArchSemantics._handle_instruction_found")]),
         Unit("C01/assign_tp_lt/no-data-branches", tp_lt_trivial_unit, "P", [(AS, "ArchSemantics.assign_tp_lt")]),
